@@ -6,6 +6,7 @@ pub struct Exec {
     pub sim: Option<simx::SimCtx>,
     pub tim: Option<c34::TimCtx>,
     pub src: Option<lc3_ensemble::asm::SourceInfo>,
+    pub objs: objx::Slots,
 }
 
 impl Exec {
@@ -20,6 +21,7 @@ impl Exec {
             "parse" => lexp::exec_parse(&toks[1..]),
             "print" => lexp::exec_print(&toks[1..]),
             "disasm" => lexp::exec_disasm(&toks[1..]),
+            "asm" | "link" | "odump" | "oq" | "bser" | "bde" | "tser" | "tde" | "oload" => objx::exec(&mut self.objs, &mut self.sim, &toks),
             "off" => c35::exec(false, &toks[1..]),
             "offt" => c35::exec(true, &toks[1..]),
             "wop" => c15::exec(&toks[1..]),
